@@ -47,6 +47,7 @@ class CFG:
         self.node_of = {}                  # id(ast stmt / handler) -> node id
         self.owner = {}                    # id(ast node) -> node id of enclosing stmt node
         self.withexit_of = {}              # id(With stmt) -> withexit node id
+        self.after_finally = {}            # (node, target) -> labels of the normal exits that carry the re-raise edge
         self.n = 0
         self.entry = self._new('entry', fn)
         self.exit = self._new('exit', fn)
@@ -194,6 +195,10 @@ class CFG:
                 if fr.exc_entered or True:
                     for t in self._raise_targets():
                         self._connect([(p, 'exc') for p, _ in fout], t)
+                        for p, lab in fout:
+                            # the pending exception propagates when the finally block completes: remember through which
+                            # (branch) exit of its last statement that is
+                            self.after_finally.setdefault((p, t), set()).add(lab)
                 return fout
             self._frames.pop()
             return out
